@@ -128,4 +128,22 @@ CollViol(g, h, f, i) ==
   \cup (IF snd # {} THEN {}
         ELSE CollSufficient(g, h, "horton", opt) \cup CollSufficient(g, f, "fvs", opt) \cup CollSufficient(g, i, "iso", opt))
 
+\* ---------------- C15 spanner -----------------------------------------------------
+\* kept: seq of <<g-edge index, spanner source, spanner target, spanner weight>>; dropped: seq of g-edge indices
+SpannerViol(g, k, kept, dropped) ==
+  LET K == {kept[j][1] : j \in 1..Len(kept)}
+      Dr == {dropped[j] : j \in 1..Len(dropped)}
+  IN   (IF K \cup Dr # EIdx(g) \/ K \cap Dr # {} \/ Cardinality(K) # Len(kept) \/ Cardinality(Dr) # Len(dropped)
+          THEN {"not-a-partition-of-the-edges"} ELSE {})
+  \cup (IF \E j \in 1..Len(kept) : kept[j][1] \in EIdx(g) /\ {kept[j][2], kept[j][3]} # Ends(g, kept[j][1])
+          THEN {"spanner-edge-joins-other-vertices"} ELSE {})
+  \cup (IF \E j \in 1..Len(kept) : kept[j][1] \in EIdx(g) /\ kept[j][4] # W(g, kept[j][1])
+          THEN {"spanner-weight-not-carried-over"} ELSE {})
+  \cup (IF K \subseteq EIdx(g) /\ Dr \subseteq EIdx(g) THEN
+             (IF \E e \in Dr : HopDist(g, {f \in K : W(g, f) <= W(g, e)}, Src(g, e))[Dst(g, e)] > 2 * k - 1
+                THEN {"dropped-edge-without-short-light-path"} ELSE {})
+        \cup (IF Girth(g, K) <= 2 * k THEN {"short-cycle-in-spanner"} ELSE {})
+        ELSE {})
+
+
 =============================================================================
